@@ -150,7 +150,16 @@ Definition checksums_ok (tw : list N) (out : list buf) : bool :=
 Definition headers_valid_ok (tw : list N) (out : list buf) : bool :=
   descriptors_ok tw out && lengths_all_ok tw out && checksums_ok tw out.
 
-(* [holdsb] is the conjunction of the five clauses (Gro.Holds.holdsb_clauses); it is written with the
+(* clause 6: a packet keeps its transport-checksum verdict: re-segmentation gives back the input
+   packets (as a multiset, up to the excepted fields) TOGETHER WITH whether their TCP/UDP checksum
+   verifies.  The excepted fields include the checksum itself, so clause 3 alone would accept a
+   corrupted packet that was coalesced and leaves the kernel with a freshly computed valid checksum
+   ("packets that cannot be coalesced are passed through unmodified"). *)
+Definition canonv (p : list N) : list N := (if l4_csum_ok p then 1 else 0) :: canon p.
+Definition csum_kept_ok (inp : list buf) (tw : list N) (out : list buf) : bool :=
+  perm_eqb (map canonv (segments tw out)) (map (fun b => canonv (b_pkt b)) inp).
+
+(* [holdsb] is the conjunction of the six clauses (Gro.Holds.holdsb_clauses); it is written with the
    kernel's segments computed once, because it is evaluated on every generated batch. *)
 Definition udp_order_segs (keep : list N -> bool) (inp : list buf) (segs0 : list (list N)) : bool :=
   let ins := filter keep (map b_pkt inp) in
@@ -171,4 +180,5 @@ Definition holdsb (inp : list buf) (tw : list N) (out : list buf) : bool :=
   && passthrough_ok inp tw out
   && perm_eqb (map canon segs) (map (fun b => canon (b_pkt b)) inp)
   && udp_order_segs (fun _ => true) inp segs
-  && (forallb descriptor_ok (filter is_gso wr) && forallb lengths_ok (filter is_gso wr) && csums_ok2 wr sl).
+  && (forallb descriptor_ok (filter is_gso wr) && forallb lengths_ok (filter is_gso wr) && csums_ok2 wr sl)
+  && perm_eqb (map canonv segs) (map (fun b => canonv (b_pkt b)) inp).
